@@ -162,6 +162,20 @@ def spellings(meta):
     return out
 
 
+def stratified(rng, sp, n):
+    """A sample of about n spellings in which EVERY spelling class is represented (a uniform sample
+    leaves the rare classes - trailing '..' of a child directory, bad escapes - out of some runs)."""
+    by = {}
+    for item in sp:
+        by.setdefault(item[1], []).append(item)
+    per = max(2, n // max(1, len(by)))
+    out = []
+    for cls in sorted(by):
+        items = by[cls]
+        out += rng.sample(items, min(len(items), per))
+    return out
+
+
 def identify(meta, body_text):
     """canonical locations of resources whose content is in the body."""
     locs = set()
@@ -271,7 +285,7 @@ def run(ctx):
                     if ctx.quick() and not listing and via == "object":
                         continue
                     cap, sc, cac = capture(ctx, meta, rules, via, base, listing)
-                    todo = sp if not ctx.quick() else rng.sample(sp, min(len(sp), 150))
+                    todo = sp if not ctx.quick() else stratified(rng, sp, 170)
                     for path, cls, target in todo:
                         for cname, ident in (clients if not ctx.quick() else [clients[0], clients[1], rng.choice(clients[2:])]):
                             loop = new_loop()
